@@ -1,5 +1,7 @@
 """C08 - interactive results converge to a fresh filter of the current query.
 Layer (a): query-edit histories against the caches (Engine A). Layers (b) scheduler and (c) pty are added as further functions."""
+import os
+
 FILES = ["harness/fzf/c08a.go"]
 
 
@@ -12,6 +14,8 @@ def layer_a(c, b, replay=None):
 
 
 def run(c, replay):
+    if replay:
+        replay = os.path.abspath(replay)   # workers run in their own directories
     ov = c.harness_overlay("src", FILES)
     b = c.build_test("src", ov)
     c.bounds = dict(history_depth=c.pick(4, 5), symbols="a b A space ' ^ $ ! |", item_counts=[250, 300, 370],
